@@ -133,7 +133,22 @@ func genC14(seed uint64, r *Rng, idx, vecs int) *C14Case {
 				}
 			}
 			t := g.Template(cs.Env)
-			t = append(t, &TNode{K: "text", S: fmt.Sprintf("[%s:%d]", f.Rel, tag)}, &TNode{K: "obj", S: "zz"})
+			// an identifying marker and the variable the root assigned; placed first or
+			// last, with or without trim markers (a file may begin with white space and
+			// end on a "-}}")
+			gg := g.r
+			mark := []*TNode{{K: "text", S: fmt.Sprintf("[%s:%d]", f.Rel, tag)}, {K: "obj", S: "zz", TL: gg.Chance(0.2), TR: gg.Chance(0.3)}}
+			if gg.Chance(0.3) {
+				mark[0], mark[1] = mark[1], mark[0]
+			}
+			if gg.Chance(0.5) {
+				t = append(t, mark...)
+			} else {
+				t = append(mark, t...)
+			}
+			if gg.Chance(0.3) {
+				t = append([]*TNode{{K: "text", S: pick(gg, []string{" ", "\n", "  \n"})}}, t...)
+			}
 			return t
 		}
 		f.Tree, f.Alt = mkTree(1), mkTree(2)
